@@ -487,8 +487,6 @@ class DeepCopyMethod(MethodDescriptor):
         # to this instance (cycles) resolve to the copy instead of recursing.
         memo[id(self)] = new
         for attr, value in self.__dict__.items():
-            if inspect.ismethod(value) and value.__self__ is self:
-                continue
             attr_spec = self.__spec_class__.attrs.get(attr)
             if attr_spec and attr_spec.do_not_copy:
                 new.__dict__[attr] = value
